@@ -1,12 +1,13 @@
 """C13 -- scheduler core (work in progress: metadata filled in below)."""
-from props.common import contract_tasks, lemma_tasks, TRUSTED_CORE, SCHED_ASSUMPTIONS
+from props.common import other_tasks, contract_tasks, lemma_tasks, TRUSTED_CORE, SCHED_ASSUMPTIONS
 
 PROPERTY = "C13"
 
 
 def tasks(tier):
     return contract_tasks("contracts.scheduler", "C13", tier=tier) + contract_tasks("contracts.sim_process", "C13", tier=tier) \
-        + contract_tasks("contracts.run_prelude", "C13", tier=tier) + contract_tasks("contracts.adapters", "C13", tier=tier)
+        + contract_tasks("contracts.run_prelude", "C13", tier=tier) + contract_tasks("contracts.adapters", "C13", tier=tier) \
+        + other_tasks("contracts.faults_bounded", "C13", "bounded")
 
 
 TRUSTED_BASE = TRUSTED_CORE
